@@ -121,6 +121,8 @@ let () =
   let acc_on = (try Sys.getenv "MODEL_ACC_CHECK" = "1" with Not_found -> false) in
   let prot_on = (try Sys.getenv "MODEL_PROT_CHECK" = "1" with Not_found -> false) in
   let prot_selftest = (try Sys.getenv "MODEL_PROT_SELFTEST" = "1" with Not_found -> false) in
+  let scope_on = (try Sys.getenv "MODEL_SCOPE_CHECK" = "1" with Not_found -> false) in
+  let scope_msg = ref "" in
   let prot_failed = ref false and prot_msg = ref "" in
   let acc_failed = ref false and acc_msg = ref "" and acc_step = ref 0 in
   let acc_addrs = ref (List.filter (fun a -> string_of_n a <> "0") !inits) in
@@ -134,6 +136,10 @@ let () =
          match words line with
          | t :: x :: _ ->
              let tn = n_of_string t and xn = n_of_string x in
+             if scope_on && !scope_msg = "" then begin
+               if not (scope_step !st acc_thrs tn xn) then
+                 scope_msg := Printf.sprintf ". SCOPE-OUT step %d (a hypothesis of Main.RunOK does not hold in the state before this step)" !acc_step
+             end;
              let (s', evs) = step cf !st tn xn in
              st := s';
              if acc_on then List.iter (fun e -> match e with EvAlloc (a, _) -> if not (List.mem a !acc_addrs) then acc_addrs := a :: !acc_addrs | _ -> ()) evs;
@@ -167,6 +173,7 @@ let () =
    with End_of_file -> ());
   if !acc_failed then print_endline !acc_msg;
   if !prot_failed then print_endline !prot_msg;
+  if !scope_msg <> "" then print_endline !scope_msg;
   (* final state, in the harness's format *)
   let s = !st in
   let all_cmds = List.concat (List.rev !threads) in
